@@ -63,6 +63,10 @@ def entries(tier):
         out.append(("non_negative_parafac", {"init": "USERW", "normalize_factors": norm}))
         out.append(("non_negative_parafac_hals", {"init": "USERW", "normalize_factors": norm}))
     out.append(("parafac", {"init": "svd", "normalize_factors": True, "linesearch": True}))
+    for ent in ("parafac", "non_negative_parafac_hals", "parafac2", "cmtf"):
+        out.append((ent, dict({"init": "random", "normalize_factors": True, "tenalg": "einsum"}, **({"linesearch": False} if ent == "parafac2" else {}))))
+    out.append(("tucker", {"init": "random", "tenalg": "einsum"}))
+    out.append(("non_negative_tucker_hals", {"init": "svd", "normalize_factors": True, "tenalg": "einsum"}))
     for sc in (1e-18, 1e18):
         out.append(("parafac", {"init": "random", "normalize_factors": True, "_scale": sc}))
         out.append(("parafac", {"init": "svd", "normalize_factors": True, "_scale": sc}))
@@ -161,9 +165,18 @@ class C08(Check):
     # ------------------------------------------------------------------------------
     def run_case(self, case, ctx):
         import tensorly as tl
+
+        if case["opts"].get("tenalg"):  # configuration axis: the second tensor-algebra implementation
+            with tl.tenalg.backend_context(case["opts"]["tenalg"], local_threadsafe=True):
+                return self._run_case(case, ctx)
+        return self._run_case(case, ctx)
+
+    def _run_case(self, case, ctx):
+        import tensorly as tl
         from tensorly import decomposition as D
 
         entry, shape, rank, opts = case["entry"], tuple(case["shape"]), case["rank"], dict(case["opts"])
+        tenalg_name = opts.pop("tenalg", None)
         n = len(shape)
         nonneg = entry.startswith("non_negative")
         fam = case["family"]
@@ -172,7 +185,7 @@ class C08(Check):
         X = itm.data_tensor(fam, shape, 2, case["seed"])
         if "_scale" in opts:  # the same data in a tiny / huge unit (numerical guards around "zero" norms)
             X = X * opts.pop("_scale")
-        tag = entry + (":symeig_svd" if opts.get("svd") == "symeig_svd" else "")
+        tag = entry + (":symeig_svd" if opts.get("svd") == "symeig_svd" else "") + (f":{tenalg_name}" if tenalg_name else "")
         if opts.get("init") == "USERW":
             if not isinstance(rank, int):
                 ctx.count("guarded_out:user-init-needs-integer-rank")
